@@ -79,6 +79,8 @@ pub struct NodeStore {
     /// Remaining number of set_state calls to fail with an I/O error ("disk full").
     pub fail_set_state: u32,
     pub fail_get_block: u32,
+    /// Number of read errors ever armed (readers relax their oracle once one was injected).
+    pub read_faults_fired: u32,
     /// Payload verification verdict override: reject everything while > 0.
     pub reject_payloads: u32,
     /// Watch of the *current* incarnation.
@@ -98,6 +100,7 @@ impl NodeStore {
             fault_at: None,
             fail_set_state: 0,
             fail_get_block: 0,
+            read_faults_fired: 0,
             reject_payloads: 0,
             persisted: None,
             proposed: 0,
@@ -141,6 +144,8 @@ pub struct SimEngine {
     pub store: Arc<Mutex<NodeStore>>,
     pub persisted: Arc<sync::watch::Sender<BlockStoreState>>,
     pub hub: Arc<Hub>,
+    /// Pre-genesis blocks the execution layer vouches for.
+    pub pregenesis: Arc<std::collections::BTreeMap<u64, validator::PreGenesisBlock>>,
 }
 
 impl SimEngine {
@@ -166,6 +171,7 @@ impl SimEngine {
             store,
             persisted,
             hub,
+            pregenesis: Default::default(),
         }
     }
 
@@ -266,6 +272,9 @@ impl EngineInterface for SimEngine {
             return Err(ctx::Canceled.into());
         }
         let n = block.number();
+        // Writes which a side channel has overtaken are moot.
+        let next = s.disk.next();
+        s.pending.retain(|b| b.number() >= next);
         let want = validator::BlockNumber(s.disk.next().0 + s.pending.len() as u64);
         self.hub.on_queue_next_block(self.node, self.inc, &block, want, &s);
         if n < want {
@@ -289,9 +298,14 @@ impl EngineInterface for SimEngine {
     async fn verify_pregenesis_block(
         &self,
         _ctx: &ctx::Ctx,
-        _block: &validator::PreGenesisBlock,
+        block: &validator::PreGenesisBlock,
     ) -> ctx::Result<()> {
-        Err(anyhow::anyhow!("no pre-genesis blocks in this simulation").into())
+        sched_point().await;
+        if self.pregenesis.get(&block.number.0) == Some(block) {
+            Ok(())
+        } else {
+            Err(anyhow::anyhow!("invalid pre-genesis block").into())
+        }
     }
 
     async fn verify_payload(
